@@ -37,6 +37,14 @@ def finding_key(opname, exc, tensors, args):
         if opname == "log1p_" and d and isinstance(d[0], (int, float)) and d[0] <= -1: return "log_default_python_domain_error"
     return None
 
+def mismatch_key(opname, tensors, args):
+    """known-finding predicate for a wrong *value* (not an exception), or None"""
+    d = [getattr(t, "default", None) for t in tensors]
+    isnan = lambda v: isinstance(v, float) and v != v
+    if opname == "relu_" and d and isnan(d[0]): return "python_max_drops_nan_default"
+    if opname == "maximum" and len(d) > 1 and isnan(d[1]) and not isnan(d[0]): return "python_max_drops_nan_default"
+    return None
+
 # ---------------------------------------------------------------------------- op catalogue
 class Op:
     def __init__(self, name, impl, ref, n=1, kind="float", gen=None, tol=0.0, tol32=None, nan_default=False,
@@ -362,7 +370,7 @@ def run_step(op, tensors, denses, args, mon):
     if rexc is not None:
         return Outcome("ref_raise_only", detail=repr(rexc)), None, None
     if not cmp_ok:
-        return Outcome("mismatch", detail=what), res, ref
+        return Outcome("mismatch", detail=what, key=mismatch_key(op.name, tensors, args)), res, ref
     o = Outcome("ok"); o.nwarn = nwarn
     return o, res, ref
 
